@@ -412,6 +412,8 @@ def run_kind_inventory(ck, F):
 
 def run(ck, tier):
     F = factsmod.Facts("ws")
+    from . import influence as _infl
+    _infl.run(ck, F, 'C18')
     # resumable varint decoder of the Avro reader: a short read must not lose or mis-shift the partial value (rules of C14)
     from . import c14, core
     c14.run_resumable(core.Renamed(ck, "C14.", "C18."), F)
